@@ -29,6 +29,11 @@ def check(run):
         nu = N.check_unwrap(run, F, FILES, AUDITED_UNWRAP)
         run.floor('NULL.unwrap', 'IsNone::unwrap sites in the aggregation files', nu, 15)
         N.check_only_trait(run, F, FILES)
+    if run.tier == 'thorough':
+        import casrules
+        run.rule('CAS.form', casrules.RULE)
+        n = casrules.check_aggs(run, run.facts('base'))
+        run.floor('CAS.form', 'skewness / kurtosis closed forms', n, 2)
     return run.finish(
         'other',
         'Structure of the aggregation definitions: the fold helpers skip exactly the nulls and '
